@@ -83,6 +83,7 @@ func c06Answers() (ocspA, crlA []faultAnswer) {
 		st := st
 		ocspA = append(ocspA, faultAnswer{name: fmt.Sprintf("ocsp-error-status-%d", st), ocsp: func(w *revWorld, s source) netsim.Answer { return okResp(pki.OCSPErrorStatus(st)) }})
 	}
+	ocspA = append(ocspA, faultAnswer{name: "good-without-content-length", good: true, ocsp: func(w *revWorld, s source) netsim.Answer { a := goodO(w, s); a.NoLength = true; return a }})
 	ocspA = append(ocspA, faultAnswer{name: "cancel-during-request", cancel: "during", ocsp: goodO})
 	ocspA = append(ocspA, faultAnswer{name: "cancel-after-request", cancel: "after", good: true, ocsp: goodO})
 	// CRL alphabet
@@ -92,6 +93,7 @@ func c06Answers() (ocspA, crlA []faultAnswer) {
 		g := g
 		crlA = append(crlA, faultAnswer{name: g.name, crl: func(w *revWorld, s source) netsim.Answer { return g.f(cleanC(w, s)) }})
 	}
+	crlA = append(crlA, faultAnswer{name: "clean-without-content-length", good: true, crl: func(w *revWorld, s source) netsim.Answer { a := cleanC(w, s); a.NoLength = true; return a }})
 	crlA = append(crlA, faultAnswer{name: "cancel-during-request", cancel: "during", crl: cleanC})
 	crlA = append(crlA, faultAnswer{name: "cancel-after-request", cancel: "after", good: true, crl: cleanC})
 	crlA = append(crlA, faultAnswer{name: "body-32MiB-of-zeros", heavy: true, crl: func(w *revWorld, s source) netsim.Answer {
@@ -135,8 +137,13 @@ type c06Scenario struct {
 	w         *revWorld
 }
 
-var c06BadOCSP = []string{"http://[::1", "%zz", "https://ocsp.test/c0/r0", "ldap://ocsp.test/c0/r0", "ftp://ocsp.test/c0/r0", "", "ocsp.test/no-scheme", "HTTPS://OCSP.TEST/c0/r0"}
-var c06BadCRL = []string{"http://[::1", "%zz", "https://crl.test/c0/dp0/base", "ldap://crl.test/c0/dp0/base", "ftp://crl.test/c0/dp0/base", "crl.test/no-scheme", "file:///etc/passwd", "HTTP://crl.test/c0/dp0/base"}
+// non-http or unparsable strings put in front of a certificate's usable URLs (they reuse the path of the URL they replace)
+var c06BadOCSP = []string{"http://[::1", "%zz", "https://ocsp.test/c0/rX", "ldap://ocsp.test/c0/rX", "ftp://ocsp.test/c0/rX", "", "ocsp.test/no-scheme", "HTTPS://OCSP.TEST/c0/rX"}
+var c06BadCRL = []string{"http://[::1", "%zz", "https://crl.test/c0/dpX/base", "ldap://crl.test/c0/dpX/base", "ftp://crl.test/c0/dpX/base", "crl.test/no-scheme", "file:///etc/passwd", "HTTP://crl.test/c0/dpX/base"}
+
+func c06Bad(list []string, variant int) string {
+	return strings.ReplaceAll(list[variant%len(list)], "X", fmt.Sprint(urlLabel[0]))
+}
 
 func (s *c06Scenario) world(variant int) *revWorld {
 	if !s.badURLs {
@@ -149,9 +156,9 @@ func (s *c06Scenario) world(variant int) *revWorld {
 			return "", false
 		}
 		if kind == "ocsp" {
-			return c06BadOCSP[variant%len(c06BadOCSP)], true
+			return c06Bad(c06BadOCSP, variant), true
 		}
-		return c06BadCRL[variant%len(c06BadCRL)], true
+		return c06Bad(c06BadCRL, variant), true
 	})
 }
 
@@ -160,7 +167,7 @@ func c06Scenarios(tier mc.Tier) []mc.Scenario {
 	noCancel := func(a faultAnswer) bool { return !a.heavy && a.cancel == "" }
 	reduced := func(a faultAnswer) bool {
 		switch a.name {
-		case "good", "revoked", "clean", "lists", "transport-error", "timeout", "http-404(genuine body)", "http-503(genuine body)", "empty-body", "truncated-half", "truncated-last-byte",
+		case "good", "revoked", "clean", "lists", "good-without-content-length", "clean-without-content-length", "transport-error", "timeout", "http-404(genuine body)", "http-503(genuine body)", "empty-body", "truncated-half", "truncated-last-byte",
 			"garbage", "oversized-20KiB+1", "ocsp-error-status-3", "cancel-during-request", "cancel-after-request":
 			return true
 		}
@@ -443,7 +450,7 @@ func (s *c06Scenario) body(c *mc.Ctx) {
 			}
 		}
 		allClean := usesCRL && s.c[i] > 0 && cleanDPs == s.c[i]
-		if s.badURLs && i == 0 && s.c[i] > 0 && !strings.HasPrefix(strings.ToLower(c06BadCRL[variant%len(c06BadCRL)]), "http://") {
+		if s.badURLs && i == 0 && s.c[i] > 0 && !strings.HasPrefix(strings.ToLower(c06Bad(c06BadCRL, variant)), "http://") {
 			allClean = false // the first distribution point is not an http URL: it can never deliver
 		}
 		state = append(state, fmt.Sprintf("c%d:names=%v goodOCSP=%v allClean=%v revoked=%v", i, names, goodOCSP, allClean, revEv))
